@@ -359,7 +359,27 @@ Param == { << <<Def("p", MkParam(I(0))), Def("q", MkParam(I(100))), Def("n", I(0
               <<Emit1(P("list", <<PGet("p"), PGet("q"), V("n")>>))>> >>
            : sh \in UNION { PShape(ve, w) : ve \in PVals, w \in {0, 1} } }
 
+-----------------------------------------------------------------------------
+(* restloop: a procedure with a rest parameter that tail-calls itself (or a twin) with a number of operands     *)
+(* different from the number it was entered with: the frame is rebuilt with a rest list of another length       *)
+RLRest(k) == SubSeq(<<V("i"), P("*", <<V("i"), I(10)>>), C(SymV("z"))>>, 1, k)
+RLInit(m) == SubSeq(<<I(7), I(8), I(9)>>, 1, m)
+RLBody(fx, k, callee) ==
+  If(P("=", <<V("i"), I(0)>>),
+     P("list", (IF fx = 2 THEN <<V("i"), V("a")>> ELSE <<V("i")>>) \o <<V("r")>>),
+     App(V(callee), <<P("-", <<V("i"), I(1)>>)>> \o (IF fx = 2 THEN <<P("+", <<V("a"), I(1)>>)>> ELSE << >>) \o RLRest(k)))
+RLParams(fx) == IF fx = 2 THEN <<"i", "a">> ELSE <<"i">>
+RestLoop ==
+  { << <<Def("f", Lam(RLParams(fx), "r", RLBody(fx, k, IF mut THEN "g" ELSE "f"))),
+         Def("g", Lam(RLParams(fx), "r", RLBody(fx, k2, "f")))>>,
+       <<Emit1(App(V("f"), <<I(3)>> \o (IF fx = 2 THEN <<I(100)>> ELSE << >>) \o RLInit(m))),
+         Emit1(P("apply", <<V("f"), P("list", <<I(2)>> \o (IF fx = 2 THEN <<I(100)>> ELSE << >>) \o RLInit(m))>>)),
+         Emit1(P("map", <<Lam(<<"q">>, "", App(V("f"), <<V("q")>> \o (IF fx = 2 THEN <<I(100)>> ELSE << >>) \o RLInit(m))),
+                          C(ListV(<<IntV(0), IntV(1), IntV(4)>>))>>))>> >>
+    : fx \in {1, 2}, k \in 0..3, k2 \in {0, 2}, m \in 0..3, mut \in BOOLEAN }
+
 Programs == CASE FAMILY = "calls" -> Calls
+              [] FAMILY = "restloop" -> RestLoop
               [] FAMILY = "param" -> Param
               [] FAMILY = "reads" -> Reads
               [] FAMILY = "wide" -> Wide
